@@ -451,6 +451,7 @@ var genMetaText = rapid.Custom(func(t *rapid.T) string {
 	s := rapid.OneOf(
 		rapid.StringMatching(`[a-zA-Z0-9][a-zA-Z0-9 ]{0,10}[a-zA-Z0-9]`),
 		rapid.StringOfN(rapid.RuneFrom(unicodeLetters), 1, 8, -1),
+		anyLetters,
 		rapid.SampledFrom([]string{"a: b", "- x", "#h", "x;y", "[1]", "C_7/E", "\"q\"", "true", "null", "~", "é日本🎵", "a b", "|", ">", "'", "&a", "*a", "!t", "%", "@", "`", "0", "1e3", "yes", "a #c", "C#m7", "♯♭", "x\ny", "a\tb", "key: C", "- ", "? x", ": y"}),
 		rapid.StringMatching(`[a-z:#\-\[\]&*!|>'"%@;/_ ]{1,10}`),
 	).Draw(t, "metatext")
